@@ -38,6 +38,123 @@ META = {
 }
 
 
+def period_index_rule(ctx: Ctx, rid: str):
+    """Limit._idx_to_sb_idx: the daily / weekly period index is a difference of calendar dates (C05 R05.6 / C07 R07.7)."""
+    repo = ctx.repo
+    idxf = repo.func("Limit._idx_to_sb_idx")
+    from ..order import local_resolver
+    res_i = local_resolver(idxf.node)
+
+    def kind(e, depth=0):
+        """DT datetime | D date | ORD ordinal | TD | ?"""
+        if depth > 6:
+            return "?"
+        if isinstance(e, ast.Call) and isinstance(e.func, ast.Attribute):
+            if e.func.attr == "date" and not e.args:
+                return "D"
+            if e.func.attr == "toordinal":
+                return "ORD"
+            if e.func.attr == "replace" and any(k.arg in ("hour", "minute") for k in e.keywords):
+                return kind(e.func.value, depth + 1)
+        if isinstance(e, ast.Call) and (dotted(e.func) or "").split(".")[-1] == "timedelta":
+            return "TD"
+        if isinstance(e, ast.Attribute) and norm(e) in ("self.interval_start", "self.interval_end"):
+            return "DT"
+        if isinstance(e, ast.Name):
+            ks = {kind(v, depth + 1) for v in res_i(e)}
+            return ks.pop() if len(ks) == 1 else "?"
+        if isinstance(e, ast.BinOp) and isinstance(e.op, (ast.Add, ast.Sub)):
+            a, b = kind(e.left, depth + 1), kind(e.right, depth + 1)
+            if b == "TD":
+                return a
+            if a == "TD":
+                return b
+        return "?"
+    n_idx = 0
+
+    def _const(e):
+        try:
+            return eval(compile(ast.Expression(e), "<const>", "eval"), {"__builtins__": {}})
+        except Exception:
+            return None
+
+    def _truth(test, P):
+        """value of a branch condition when self.period == P: True / False / None (unknown)"""
+        if isinstance(test, ast.Compare) and len(test.ops) == 1 and norm(test.left) == "self.period" and isinstance(test.ops[0], (ast.Eq, ast.NotEq)):
+            k = _const(test.comparators[0])
+            if k is None:
+                return None
+            return (k == P) if isinstance(test.ops[0], ast.Eq) else (k != P)
+        if isinstance(test, ast.BoolOp):
+            vs = [_truth(v, P) for v in test.values]
+            if isinstance(test.op, ast.And):
+                return False if any(v is False for v in vs) else (True if all(v is True for v in vs) else None)
+            return True if any(v is True for v in vs) else (False if all(v is False for v in vs) else None)
+        if isinstance(test, ast.UnaryOp) and isinstance(test.op, ast.Not):
+            v = _truth(test.operand, P)
+            return None if v is None else not v
+        return None
+
+    def _reach(stmts, P, out):
+        """returns reachable when self.period == P; result: True if the block always returns"""
+        for st in stmts:
+            if isinstance(st, ast.Return):
+                out.append(st)
+                return True
+            if isinstance(st, ast.If):
+                t = _truth(st.test, P)
+                a = _reach(st.body, P, out) if t is not False else None
+                b = _reach(st.orelse, P, out) if t is not True else None
+                if (t is True and a) or (t is False and b) or (t is None and a and b):
+                    return True
+            elif isinstance(st, (ast.For, ast.While, ast.With, ast.Try)):
+                for sub in ast.walk(st):
+                    if isinstance(sub, ast.Return):
+                        out.append(sub)
+        return False
+    per_returns = []
+    for P in (86400, 604800):
+        rs = []
+        _reach(idxf.node.body, P, rs)
+        per_returns += [(P, r_) for r_ in rs]
+    for per, r in per_returns:
+        if r.value is None:
+            continue
+        n_idx += 1
+        name = "daily" if per == 86400 else "weekly"
+        exprs, seen_n = [r.value], set()
+        for e_ in exprs:
+            for x in ast.walk(e_):
+                if isinstance(x, ast.Name) and x.id not in seen_n and len(exprs) < 12:
+                    seen_n.add(x.id)
+                    exprs += [v for v in res_i(x) if kind(v) == "?"]
+        diffs = [x for e_ in exprs for x in ast.walk(e_) if isinstance(x, ast.BinOp) and isinstance(x.op, ast.Sub)
+                 and {kind(x.left), kind(x.right)} <= {"D", "DT", "ORD"}]
+        fdi_ = ctx.dep.of(idxf)
+        if "field:interval_start" not in data(fdi_.deps_of(r.value)):
+            ctx.ob(rid, f"{idxf.qual}: {name} index {norm(r.value)[:60]}", (idxf, r), False,
+                   f"the {name} period index does not depend on the interval start: periods are counted as fixed-length blocks from "
+                   "the first slot instead of calendar days / weeks, so for a project that does not start at midnight (on a Monday) one "
+                   "calendar period is split over two counters and the limit can be exceeded",
+                   key=key_of(rid, idxf, None, f"{name} index"))
+            continue
+        if not diffs:
+            from ..model import Inconclusive
+            raise Inconclusive(f"Limit._idx_to_sb_idx: {name} index {norm(r.value)[:60]} is not a difference of two dates the rule can type")
+        for x in diffs:
+            ks = (kind(x.left), kind(x.right))
+            ok = ks in (("D", "D"), ("ORD", "ORD"))
+            ctx.ob(rid, f"{idxf.qual}: {name} index {norm(x)[:60]} : {ks[0]} - {ks[1]}", (idxf, r), ok,
+                   "period index is a difference of calendar dates" if ok else
+                   f"the {name} period index is a difference of date-TIMES ({ks[0]} - {ks[1]}): it counts elapsed 24-hour spans from the "
+                   "interval start's time of day, so a calendar day / week is split over two counters and the limit can be "
+                   "exceeded within one calendar period",
+                   key=key_of(rid, idxf, None, f"{name} index"))
+    if n_idx < 2:
+        raise AnchorMissing("Limit._idx_to_sb_idx: daily / weekly branches not found")
+
+
+
 def limit_copy_rule(ctx: Ctx, rid: str):
     """Limit.copy passes every constructor argument from the same-named field (C05 R05.7 / C16 / C14)."""
     repo = ctx.repo
@@ -46,6 +163,20 @@ def limit_copy_rule(ctx: Ctx, rid: str):
     params = [a.arg for a in init.node.args.args if a.arg != "self"] + [a.arg for a in init.node.args.kwonlyargs]
     for r in returns(cp):
         c = r.value
+        if isinstance(c, ast.Name):
+            from ..order import local_resolver
+            vals = local_resolver(cp.node)(c)
+            nm = c.id
+            if len(vals) == 1:
+                c = vals[0]
+            # what is stored into the new object after construction must not alias this object's mutable state
+            for st in own_nodes(cp):
+                if isinstance(st, ast.Assign) and isinstance(st.targets[0], ast.Attribute) and norm(st.targets[0].value) == nm \
+                        and isinstance(st.value, ast.Attribute) and norm(st.value.value) == "self" and st.value.attr in ("_scoreboard",):
+                    ctx.ob(rid, f"{cp.qual}: {norm(st)}", (cp, st), False,
+                           "the copy shares the usage counters of the original: all per-scenario copies count into one list, so a scenario "
+                           "starts with the days / weeks an earlier scenario used already filled",
+                           key=key_of(rid, cp, st, "aliased counters"))
         if not (isinstance(c, ast.Call) and (dotted(c.func) or "").split(".")[-1] in ("Limit", "__class__", "type")):
             from ..model import Inconclusive
             raise Inconclusive(f"Limit.copy returns {norm(c)[:60]}: not a constructor call the rule understands")
@@ -332,80 +463,7 @@ def run(ctx: Ctx):
            key="R05.4|setLimit|periods")
 
     # ---------------------------------------------------------------- R05.6 period index = calendar-date difference
-    idxf = repo.func("Limit._idx_to_sb_idx")
-    from ..order import local_resolver
-    res_i = local_resolver(idxf.node)
-
-    def kind(e, depth=0):
-        """DT datetime | D date | ORD ordinal | TD | ?"""
-        if depth > 6:
-            return "?"
-        if isinstance(e, ast.Call) and isinstance(e.func, ast.Attribute):
-            if e.func.attr == "date" and not e.args:
-                return "D"
-            if e.func.attr == "toordinal":
-                return "ORD"
-            if e.func.attr == "replace" and any(k.arg in ("hour", "minute") for k in e.keywords):
-                return kind(e.func.value, depth + 1)
-        if isinstance(e, ast.Call) and (dotted(e.func) or "").split(".")[-1] == "timedelta":
-            return "TD"
-        if isinstance(e, ast.Attribute) and norm(e) in ("self.interval_start", "self.interval_end"):
-            return "DT"
-        if isinstance(e, ast.Name):
-            ks = {kind(v, depth + 1) for v in res_i(e)}
-            return ks.pop() if len(ks) == 1 else "?"
-        if isinstance(e, ast.BinOp) and isinstance(e.op, (ast.Add, ast.Sub)):
-            a, b = kind(e.left, depth + 1), kind(e.right, depth + 1)
-            if b == "TD":
-                return a
-            if a == "TD":
-                return b
-        return "?"
-    n_idx = 0
-    for r in returns(idxf):
-        from .common import enclosing_ifs
-        per = None
-        for (i, b) in enclosing_ifs(r, idxf.node):
-            if b == "T" and isinstance(i.test, ast.Compare) and norm(i.test.left) == "self.period":
-                try:
-                    per = eval(compile(ast.Expression(i.test.comparators[0]), "<const>", "eval"), {"__builtins__": {}})
-                except Exception:
-                    per = None
-        if per not in (86400, 604800):
-            continue
-        n_idx += 1
-        name = "daily" if per == 86400 else "weekly"
-        exprs, seen_n = [r.value], set()
-        for e_ in exprs:
-            for x in ast.walk(e_):
-                if isinstance(x, ast.Name) and x.id not in seen_n and len(exprs) < 12:
-                    seen_n.add(x.id)
-                    exprs += [v for v in res_i(x) if kind(v) == "?"]
-        diffs = [x for e_ in exprs for x in ast.walk(e_) if isinstance(x, ast.BinOp) and isinstance(x.op, ast.Sub)
-                 and {kind(x.left), kind(x.right)} <= {"D", "DT", "ORD"}]
-        fdi_ = ctx.dep.of(idxf)
-        if "field:interval_start" not in data(fdi_.deps_of(r.value)):
-            ctx.ob("R05.6", f"{idxf.qual}: {name} index {norm(r.value)[:60]}", (idxf, r), False,
-                   f"the {name} period index does not depend on the interval start: periods are counted as fixed-length blocks from "
-                   "the first slot instead of calendar days / weeks, so for a project that does not start at midnight (on a Monday) one "
-                   "calendar period is split over two counters and the limit can be exceeded",
-                   key=key_of("R05.6", idxf, None, f"{name} index"))
-            continue
-        if not diffs:
-            from ..model import Inconclusive
-            raise Inconclusive(f"Limit._idx_to_sb_idx: {name} index {norm(r.value)[:60]} is not a difference of two dates the rule can type")
-        for x in diffs:
-            ks = (kind(x.left), kind(x.right))
-            ok = ks in (("D", "D"), ("ORD", "ORD"))
-            ctx.ob("R05.6", f"{idxf.qual}: {name} index {norm(x)[:60]} : {ks[0]} - {ks[1]}", (idxf, r), ok,
-                   "period index is a difference of calendar dates" if ok else
-                   f"the {name} period index is a difference of date-TIMES ({ks[0]} - {ks[1]}): it counts elapsed 24-hour spans from the "
-                   "interval start's time of day, so a calendar day / week is split over two counters and the limit can be "
-                   "exceeded within one calendar period",
-                   key=key_of("R05.6", idxf, None, f"{name} index"))
-    if n_idx < 2:
-        raise AnchorMissing("Limit._idx_to_sb_idx: daily / weekly branches not found")
-
+    period_index_rule(ctx, "R05.6")
     # ---------------------------------------------------------------- R05.7 copy() carries every constructor argument
     limit_copy_rule(ctx, "R05.7")
     ctx.floor("R05.7", 9)
